@@ -12,7 +12,8 @@
 (***************************************************************************)
 EXTENDS Integers, FiniteSets, Sequences, TLC, Json
 
-CONSTANTS Mode
+CONSTANTS Mode,
+          MaxOff   \* how many flags may be off their default at once
 
 Flags == <<"max-sessions", "max-receivers-per-sender", "max-message-bytes", "ws-connects", "ws-msgs", "session-creates",
            "max-ws-connections", "ws-idle-timeout", "session-timeout">>
@@ -31,7 +32,7 @@ Deviating(f) == Cardinality({i \in 1..NF : f[i] # "default"})
 Init ==
   /\ phase = "new"
   /\ \/ /\ Mode = "flags"
-        /\ cfg \in {f \in [1..NF -> Levels] : Deviating(f) <= 2 \/ (\A i \in 1..NF : f[i] = "small") \/ (\A i \in 1..NF : f[i] = "zero")}
+        /\ cfg \in {f \in [1..NF -> Levels] : Deviating(f) <= MaxOff \/ (\A i \in 1..NF : f[i] = "small") \/ (\A i \in 1..NF : f[i] = "zero")}
         /\ turn = "off" /\ peer = "hex"
      \/ /\ Mode = "turn"
         /\ cfg = [i \in 1..NF |-> "default"]
